@@ -1,11 +1,11 @@
 (** C15 -- Edits that succeed keep the document serializable and faithful.
 
-    "No sequence of DOM calls that each report success can leave a document whose serialization
+    'No sequence of DOM calls that each report success can leave a document whose serialization
     the parser rejects or that denotes content different from what the DOM reports.  Character
     data, comments, CDATA sections, PI targets and data, element and attribute names and attribute
     values supplied through the API are either stored so that they survive a print/parse round
     trip or refused with an error - also when the offending sequence (']]>', '--', '?>', a quote,
-    '<', '&') only arises from combining several individually harmless edits."
+    '<', '&') only arises from combining several individually harmless edits.'
 
     Full statement (DESIGN 5.15):
       printable_reachable : forall d ops, Printable (fold_left step ops (parse d))
@@ -15,27 +15,60 @@
     What is proved here, for the model of the repaired code (Model/DomOps.v after the fixes D39,
     D46): [C15_printable_reachable] -- after EVERY history (calls that fail, are refused or panic
     included) every stored string satisfies the lexical invariant of its node kind
-    ([Printable], Proofs/DomPrintable.v): a Text holds characters other than "<" and "&", a
-    Comment no "--" and no trailing "-", a CDATASection no "]]>", a PI a name and data without
-    "?>", elements / attributes / entity references hold names.  The character-data clauses need
+    ([Printable], Proofs/DomPrintable.v): a Text holds characters other than '<' and '&', a
+    Comment no '--' and no trailing '-', a CDATASection no ']]>', a PI a name and data without
+    '?>', elements / attributes / entity references hold names.  The character-data clauses need
     no hypothesis: the model validates the RESULTING string of every data edit with the checks of
     Model/CharData.v (= the storability predicates of XML 1.0, Proofs/CharDataProofs.v), which is
-    exactly what the repair of D46 made the code do -- "combining several individually harmless
-    edits" is covered because the invariant is re-established on the combined string.  Names, PI
+    exactly what the repair of D46 made the code do -- 'combining several individually harmless
+    edits' is covered because the invariant is re-established on the combined string.  Names, PI
     data and attribute value pieces enter the model as facts computed by the implementation's
     parser; the theorem assumes those facts are lexically sound ([op_facts_ok]).
 
-    PARTIAL: [edited_roundtrip] is NOT proved (it needs the parser and printer models on edited
-    stores: Model/ParseActions.v, Model/Info.v, Model/Display.v are another area, and none of them
-    covers stores built by edits).  It is checked on the implementation by checks/C15.py: after
-    every successful call the serialisation of every document is re-parsed and its content
-    compared.  The position- and neighbour-dependent clauses of the full invariant (a Text holding
-    "]]>" moved from an attribute value into content, "]]" next to ">", both quotation marks in one
-    attribute value, a document without element or whose entity declarations were removed) are
-    refuted on the implementation by that check and listed as findings with narrow classifiers. *)
+    [edited_roundtrip] (second half of this file; Model/StoreDoc.v, Proofs/StoreDoc*.v).
+    [doc_of_store s : Info.document] is the infoset document a store denotes: the children of the
+    Document item, every element with its attributes (value pieces) and children, walked exactly
+    as the printer walks them; the XML declaration and the document type declaration, which the
+    store keeps as text, denote what the parser reads from that text.  Proved:
+
+      C15_display_is_show        display (doc_of_store s) = show_doc s
+                                 (the printer of the infoset model on the denoted document writes
+                                 the text the store model prints, [show_doc] being tied to the real
+                                 to_string() by the dom correspondence)
+      C15_store_doc_printable    TreeInv s -> Lex15 s -> UniqQ s -> Known15 s = false ->
+                                 printable (doc_of_store s)         ([printable]: C04's invariant)
+      C15_edited_roundtrip_partial    ... -> exists d', pipeline_parse (display (doc_of_store s)) = OOk ([], d')
+                                 /\ doc_eq d' (doc_of_store s)   (with C04's print_parse_partial_printable)
+      C15_edited_roundtrip_reachable  the same for every document of every world reachable from a
+                                 world with the invariants, stated on [show_doc s].
+
+    [Lex15] = [Printable] and four clauses that are facts of the implementation's parser (a PI
+    target is not xml, PI data do not start with white space, the name of a character reference is
+    # digits or #x hex digits of the stored character, the header texts are prints); it is kept by
+    every call ([C15_lex15_reachable], facts hypotheses [op_facts_ok], [op_facts_ok15]) and
+    decidable on the driver's tables ([C15_lex15_checkable]).  [UniqQ] is C13's invariant.
+
+    PARTIAL: the statement is restricted by [Known15 s = false], a decidable predicate with one
+    clause per listed finding (position / neighbour dependent, so no per-node invariant covers
+    them): K_noroot (C15-NOROOT), K_el_before_dt (C15-ELEMENT-BEFORE-DOCTYPE), K_adjacent_text
+    (C15-ADJACENT-TEXT, here: any two neighbouring Text items, because the conclusion is equality
+    of the UNMERGED documents), K_empty_text (DD3), K_text_cdend (C15-ATTR-TEXT-MOVED),
+    K_both_quotes (D59: the repaired printer writes the reference quot, so the value pieces
+    differ although the value does not), K_unresolved (C15-DOCTYPE-REMOVED, generalised: an
+    entity reference that does not resolve AT ITS POSITION).  Each clause has a refutation
+    witness, a reachable store computed from a history ([C15_known15_refuted]).  The last clause
+    also covers a defect that is NOT among the listed findings ([C15_entref_unchecked_refuted]):
+    with the document type in place, create_entity_reference accepts any declared entity (an
+    unparsed one, a recursive one, one whose replacement text is not content) and the reference
+    can be appended to an element or an attribute; the parser refuses the print.  The [merged]
+    view of the full statement is not used: the conclusion here is the stronger equality of
+    item lists, which is why adjacent and empty Text items are excluded. *)
 From Coq Require Import List NArith Bool.
-From XmlRs Require Import Base.CPred Spec.XmlChars Spec.DomCharData Model.Store Model.StoreCheck Model.PrintableCheck Model.DomOps
-  Proofs.DomOpsInv Proofs.CharDataProofs Proofs.DomPrintable.
+From XmlRs Require Import Base.CPred Spec.XmlChars Spec.DomCharData.
+From XmlRs Require Import Model.Info Model.Display Proofs.DisplayEq Proofs.DisplayFull.
+From XmlRs Require Import Model.Store Model.StoreCheck Model.PrintableCheck Model.DomOps Model.StoreDoc
+  Proofs.DomTree Proofs.DomOpsInv Proofs.CharDataProofs Proofs.DomPrintable Proofs.DomL1RefineInv
+  Proofs.StoreDocInv Proofs.StoreDocShow Proofs.StoreDocWf Proofs.StoreDocReach.
 From XmlRs Require Model.CharData.
 Import ListNotations.
 Open Scope N_scope.
@@ -91,8 +124,8 @@ Theorem C15_printable_items : forall s i it, Printable s -> get s i = Some it ->
   end.
 Proof. exact printable_items. Qed.
 
-(** the hypotheses are satisfiable by a non-trivial world and history: "a" -> append "]]" (stored),
-    append ">" (refused: the result would hold "]]>"), the comment "a-x-b" -> delete "x" (refused) *)
+(** the hypotheses are satisfiable by a non-trivial world and history: 'a' -> append ']]' (stored),
+    append '>' (refused: the result would hold ']]>'), the comment 'a-x-b' -> delete 'x' (refused) *)
 Definition ex_store : store :=
   mkStore (fun i => if i =? 1 then Some (mkItem KDoc None [] [] false None [2] [] [])
                     else if i =? 2 then Some (mkItem KEl None [114] [] false (Some 1) [3; 4] [] [])
@@ -133,3 +166,76 @@ Print Assumptions C15_printable_reachable_partial.
 Print Assumptions C15_printable_reachable_data.
 Print Assumptions C15_stored_strings_storable.
 Print Assumptions C15_printable_items.
+
+(** ** the round trip of edited documents *)
+
+(** the strengthened lexical invariant along histories, and its executable form *)
+Theorem C15_lex15_reachable : forall ops w,
+  WLex15 w -> Forall op_facts_ok ops -> Forall op_facts_ok15 ops -> WLex15 (run w ops).
+Proof. exact lex15_reachable. Qed.
+
+Theorem C15_lex15_checkable : forall l nx decl root,
+  lex15_b decl l = true -> decl_ok (store_of_list l nx decl root) = true -> Lex15 (store_of_list l nx decl root).
+Proof. exact lex15_b_sound. Qed.
+
+(** [doc_of_store] is faithful to the printer *)
+Theorem C15_display_is_show : forall s, TreeInv s -> Lex15 s -> display (doc_of_store s) = show_doc s.
+Proof. intros s T L. apply display_show_doc; [exact T | exact L | apply lex15_hdr_ok; exact L]. Qed.
+
+Theorem C15_store_doc_printable : forall s,
+  TreeInv s -> Lex15 s -> UniqQ s -> Known15 s = false -> printable (doc_of_store s).
+Proof. intros s T L U K. apply store_doc_printable; try assumption. apply lex15_hdr_ok. exact L. Qed.
+
+Theorem C15_edited_roundtrip_partial : forall s,
+  TreeInv s -> Lex15 s -> UniqQ s -> Known15 s = false ->
+  exists d', pipeline_parse (display (doc_of_store s)) = OOk ([], d') /\ doc_eq d' (doc_of_store s)
+             /\ display (doc_of_store s) = show_doc s.
+Proof.
+  intros s T L U K. destruct (edited_roundtrip s T L U K) as [E1 [_ E3]]. exists (doc_of_store s).
+  split; [unfold pipeline_parse; rewrite E1; exact E3|]. split; [reflexivity | exact E1].
+Qed.
+
+Theorem C15_edited_roundtrip_reachable : forall init ops k s,
+  WInv2 init -> WLex15 init -> Forall op_facts_ok ops -> Forall op_facts_ok15 ops ->
+  doc_at (run init ops) k = Some s -> Known15 s = false ->
+  exists d', pipeline_parse (show_doc s) = OOk ([], d') /\ doc_eq d' (doc_of_store s).
+Proof.
+  intros init ops k s I2 L F1 F2 D K. destruct (edited_roundtrip_reachable init ops k s I2 L F1 F2 D K) as [_ E].
+  exists (doc_of_store s). split; [exact E | reflexivity].
+Qed.
+
+(** every clause of [Known15] is needed: a reachable store with the invariants on which exactly
+    that clause holds and the statement is false (clauses in the order of [known15_vector]) *)
+Theorem C15_known15_refuted :
+  refuted 0 /\ refuted 1 /\ refuted 2 /\ refuted 3 /\ refuted 4 /\ refuted 5 /\ refuted 6.
+Proof.
+  split; [exact noroot_refuted|]. split; [exact el_before_dt_refuted|]. split; [exact adjacent_text_refuted|].
+  split; [exact empty_text_refuted|]. split; [exact text_cdend_refuted|]. split; [exact both_quotes_refuted | exact unresolved_refuted].
+Qed.
+
+(** NOT a listed finding: the document type is in place, the entity is declared (unparsed) *)
+Theorem C15_entref_unchecked_refuted :
+  exists s, final w7_items 4 [] w7_ops = Some s /\ doc_decl s = Some 2 /\ ~ roundtrip_holds s.
+Proof.
+  destruct (final w7_items 4 [] w7_ops) as [s|] eqn:D; [|vm_compute in D; discriminate]. exists s.
+  split; [reflexivity|]. vm_compute in D. inversion D; subst s. split; [vm_compute; reflexivity|].
+  intros [d' [E _]]. vm_compute in E. discriminate.
+Qed.
+
+(** a non-trivial edited store (document type with an entity, namespace declaration, prefixed
+    names, character and entity references in content and in an attribute value, a split text
+    with a CDATA section in between, comment and PI around the document element) satisfies every
+    hypothesis; its print is [rt_printed] *)
+Example C15_roundtrip_example :
+  TreeInv rt_store /\ Lex15 rt_store /\ UniqQ rt_store /\ Known15 rt_store = false
+  /\ pipeline_parse (show_doc rt_store) = OOk ([], doc_of_store rt_store).
+Proof. exact rt_roundtrip. Qed.
+
+Print Assumptions C15_lex15_reachable.
+Print Assumptions C15_lex15_checkable.
+Print Assumptions C15_display_is_show.
+Print Assumptions C15_store_doc_printable.
+Print Assumptions C15_edited_roundtrip_partial.
+Print Assumptions C15_edited_roundtrip_reachable.
+Print Assumptions C15_known15_refuted.
+Print Assumptions C15_entref_unchecked_refuted.
